@@ -792,8 +792,11 @@ func runMBLen(c *core.Ctx) {
 				}
 			case *ast.ReturnStmt:
 				ast.Inspect(x, func(m ast.Node) bool {
-					if call, ok := m.(*ast.CallExpr); ok && an.IsBuiltin(info, call, "len") && len(call.Args) == 1 && an.SelectedField(info, call.Args[0]) == backlog {
-						lenOfBacklog = true
+					if call, ok := m.(*ast.CallExpr); ok && an.IsBuiltin(info, call, "len") && len(call.Args) == 1 {
+						// the field, or a local copy of it that is not older than the last store to the field
+						if isF, fresh := currentView(g, info, fn.Body(), call.Args[0], g.AtomOf(x), backlog); isF && fresh {
+							lenOfBacklog = true
+						}
 					}
 					return true
 				})
